@@ -79,6 +79,8 @@ class Scratch:
     def __init__(self, files=None):
         self.dir = tempfile.mkdtemp(prefix='case_', dir=_scratch_root)
         for name, content in (files or {}).items():
+            if os.path.isabs(name) or '..' in name.split('/'):
+                raise ValueError('scratch files must stay inside the scratch directory: %r' % name)
             p = os.path.join(self.dir, name)
             os.makedirs(os.path.dirname(p), exist_ok=True)
             mode = 'wb' if isinstance(content, bytes) else 'w'
